@@ -259,14 +259,18 @@ class Engine:
         if not isinstance(v, VUnion):
             return [(p, v)]
         t = simp(v.t)
+        ck = 'kinds:' + t.sexpr()
         kk = self.known_kind(p, v.t, t)
         if z3.is_app(t) and t.decl().name().startswith('v_'):
             kinds = [t.decl().name()[2:]]
         elif kk is not None:
             kinds = [kk]
+        elif ck in p.ghost:
+            # resolved earlier on this path under a weaker path condition: still a sound over-approximation
+            kinds = [k for k in p.ghost[ck] if len(p.ghost[ck]) == 1 or feasible(p, val_is(v.t, k))]
         else:
             s = z3.Solver()
-            s.set('timeout', 3000)
+            s.set('timeout', 500)
             for a in light_pc(p):
                 s.add(a)
             kinds = []
@@ -279,7 +283,7 @@ class Engine:
                     # model finding gave up (quantified invariants): refute kinds one by one instead
                     kinds = []
                     for k in KINDS:
-                        rr, _ = check_sat(light_pc(p) + [val_is(v.t, k)], 1500)
+                        rr, _ = check_sat(light_pc(p) + [val_is(v.t, k)], 700)
                         if rr != 'unsat':
                             kinds.append(k)
                     if len(kinds) > 6:
@@ -292,6 +296,8 @@ class Engine:
                 s.add(z3.Not(val_is(v.t, k)))
                 if len(kinds) > 6:
                     raise Unsupported('field %s: too many possible kinds %s (contract lacks a type fact)' % (v.desc, kinds))
+        p.ghost = dict(p.ghost)
+        p.ghost[ck] = list(kinds)
         out = []
         single = len(kinds) == 1
         for k in kinds:
@@ -337,7 +343,7 @@ class Engine:
             return [(p, ref.cls)]
         ct = z3.Select(harr(p, '$cls'), ref.t)
         s = z3.Solver()
-        s.set('timeout', 3000)
+        s.set('timeout', 500)
         for a in light_pc(p):
             s.add(a)
         out = []
